@@ -23,7 +23,9 @@ RULE = ("cases = (dyadic start position, decimal places 6|9, direction, list "
         "absolute waypoints, absolute_mode()/relative_mode() contexts, arc "
         "(quarter-turn multiples incl. full turn), arc_radius, circle, spline, "
         "helix, thread, spiral, polyline, a user-supplied parametric curve that "
-        "does not start at the current position; all coordinates multiples of 1/8 "
+        "does not start at the current position, a set_axis (G92) re-zeroing "
+        "in the middle of the toolpath, shapes ending at absolute Z exactly 0; "
+        "all coordinates multiples of 1/8 "
         "with |v|<=1024 so that o+(t-o) is exact; resolutions k*(1+2^-9), k in {1/2,1,2,"
         "4}); non-trivial = path with >=1 tracer shape and >=2 ops; distinct "
         "by SHA-1")
@@ -56,8 +58,11 @@ def op_strategy(depth=2):
     # splines have rational lengths) the sample count sits on a tie that
     # floating-point noise decides, which is not a mode difference
     res = st.sampled_from([0.5009765625, 1.001953125, 2.00390625, 4.0078125])
-    dz = st.one_of(st.none(), dy(-6, 6))
+    # "to0": the shape ends at absolute Z exactly 0 (offset -z in relative mode)
+    dz = st.one_of(st.none(), dy(-6, 6), dy(-6, 6), st.just("to0"))
     prim = st.one_of(
+        # a re-zeroing (G92) in the middle of the toolpath, the same in both runs
+        st.fixed_dictionaries({"op": st.just("set_axis"), "to": pt}),
         st.fixed_dictionaries({"op": st.sampled_from(["move", "rapid"]), "to": pt}),
         st.fixed_dictionaries({"op": st.sampled_from(["move_absolute", "rapid_absolute"]), "to": pt}),
         st.fixed_dictionaries({"op": st.just("arc"), "cx": nzo, "cy": off, "k": st.integers(1, 4),
@@ -148,7 +153,13 @@ class Exec:
                 self.collect()
                 continue
             p = self.pos
-            if name in ("move", "rapid"):
+            if op.get("dz") == "to0":
+                op = dict(op, dz=-p[2])
+            if name == "set_axis":
+                g.set_axis(**op["to"])
+                for ax, v in op["to"].items():
+                    p["xyz".index(ax)] = v
+            elif name in ("move", "rapid"):
                 kw = {}
                 for ax, v in op["to"].items():
                     k = "xyz".index(ax)
@@ -256,11 +267,15 @@ def run_case(case, cl=None):
     if math.dist(tuple(pa), tuple(pb)) > 1e-9 * (1 + max(abs(c) for c in pa)):
         raise Violation(f"final builder positions differ: {tuple(pa)} vs {tuple(pb)}")
     shapes = [o for o in flatten(case["ops"]) if o["op"] not in
-              ("move", "rapid", "move_absolute", "rapid_absolute", "ctx")]
+              ("move", "rapid", "move_absolute", "rapid_absolute", "ctx", "set_axis")]
     for o in shapes:
         cl.add("shape:" + o["op"])
     if any(o["op"] == "ctx" for o in flatten(case["ops"])):
         cl.add("mode_context")
+    if any(o["op"] == "set_axis" for o in flatten(case["ops"])):
+        cl.add("rezero_mid_toolpath")
+    if any(o.get("dz") == "to0" for o in flatten(case["ops"])):
+        cl.add("shape_ends_at_Z_exactly_0")
     if shapes and len(list(flatten(case["ops"]))) >= 2 and ea is None:
         cl.add("NT")
     return cl, len(a.verts)
